@@ -2,8 +2,8 @@
      init_connection   <- LocalPeerService::initialise_connection   (synchronisation/peer_inbound_service.rs)
      get_token_type, create_invite, accept_invite, invite_accepted  <- network/peer_manager.rs
      token / derived tokens                                        <- MeetingSecret::{token, derive_token} (security.rs)
-   The code is reproduced AS IT IS (invite_accepted removes the consumed invitation from the list of
-   the NEW peer's pairwise token, not from the invitation's own token).  Keys, invitation ids and
+   The code is reproduced AS IT IS (accept_invite registers the same invitation again when it is
+   called twice with it).  Keys, invitation ids and
    secrets are indices; signatures are symbolic (who signed what).  No proofs here. *)
 From DV Require Export Base.
 Local Open Scope N_scope.
@@ -86,23 +86,21 @@ Fixpoint remove_first (tk : token) (p : ttype -> bool) (l : list (token * ttype)
 Definition is_owned (inv : N) (t : ttype) : bool := match t with TOwned i => N.eqb i inv | _ => false end.
 Definition is_invite (inv : N) (t : ttype) : bool := match t with TInvite i _ _ => N.eqb i inv | _ => false end.
 
-(* invite_accepted, generic in the token the consumed invitation is removed from *)
-Definition invite_accepted_at (at_tok : token -> N -> token) (m : pm) (t : ttype) (p : peer) : option pm :=
+(* invite_accepted: the new peer becomes an allowed peer under its pairwise token, and the consumed
+   invitation is removed from the list of ITS OWN token (fix 2163820; before it, the list of the new
+   peer's pairwise token was searched and the invitation stayed usable until restart) *)
+Definition invite_accepted (m : pm) (t : ttype) (p : peer) : option pm :=
   let tk := token_of (pm_secret m) (p_pub p) in                 (* the NEW peer's pairwise token *)
   let m1 := push m tk (TAllowed (p_key p)) in
   match t with
   | TOwned inv =>
       Some {| pm_app := pm_app m1; pm_secret := pm_secret m1;
-              pm_tokens := remove_first (at_tok tk inv) (is_owned inv) (pm_tokens m1) |}
+              pm_tokens := remove_first (TkInvite inv) (is_owned inv) (pm_tokens m1) |}
   | TInvite inv _ _ =>
       Some {| pm_app := pm_app m1; pm_secret := pm_secret m1;
-              pm_tokens := remove_first (at_tok tk inv) (is_invite inv) (pm_tokens m1) |}
+              pm_tokens := remove_first (TkInvite inv) (is_invite inv) (pm_tokens m1) |}
   | TAllowed _ => None                                           (* unreachable!() *)
   end.
-(* the code as it is: allowed_token.get_mut(&token) with token = the pairwise token *)
-Definition invite_accepted : pm -> ttype -> peer -> option pm := invite_accepted_at (fun tk _ => tk).
-(* the one-line repair (requests/C19-fix-1.diff): remove under the invitation's own token *)
-Definition invite_accepted_fixed : pm -> ttype -> peer -> option pm := invite_accepted_at (fun _ inv => TkInvite inv).
 
 (* ------------------------------------------------------------------ the handshake *)
 (* what the remote side sends back for ProveIdentity(challenge) *)
